@@ -22,13 +22,17 @@ def replay(rec):
     res = []
     try:
         nodes = [fl(v) for v in rec['xi']]
-        ocp = Ocp(t0=fl(sc['t0']), T=fl(sc['T']))
+        from rockit import FreeTime
+        free = sc.get('hz') == 'fT'
+        ocp = Ocp(t0=fl(sc['t0']), T=FreeTime(fl(sc['T']) + 0.75) if free else fl(sc['T']))
         xs = [ocp.state() for _ in range(L - 1)]
         u = ocp.control()
         chain = xs + [u]
         for i in range(L - 1): ocp.set_der(xs[i], chain[i + 1])
-        ocp.subject_to(chain[0] + chain[1] <= 9, refine=r, meta=meta('path'))
-        ocp.subject_to(ocp.at_t0(chain[0]) == 0.5, meta=meta('bnd0'))
+        # a global parameter in the path and boundary constraints (value 1/4: the bounds are the 9 and 1/2 of the specification)
+        par = ocp.parameter(); ocp.set_value(par, 0.25)
+        ocp.subject_to(chain[0] + chain[1] <= 8 + 4 * par, refine=r, meta=meta('path'))
+        ocp.subject_to(ocp.at_t0(chain[0]) == 2 * par, meta=meta('bnd0'))
         ocp.subject_to(ocp.at_tf(chain[1]) == -1, meta=meta('bndf'))
         ocp.add_objective(ocp.at_tf(chain[0]) ** 2)
         ocp.solver('ipopt')
@@ -44,7 +48,7 @@ def replay(rec):
         ocp.method(SplineMethod(N=N, grid=GeometricGrid(2, local=True) if sc['g'] == 'geo' else UniformGrid()))
         quiet(lambda: ocp._transcribed)
         opti, vx, vp = _inputs(ocp)
-        nx = vx.numel(); pv = np.zeros(vp.numel())
+        nx = vx.numel(); pv = np.array(opti.debug.value(vp, opti.initial())).reshape(-1)
         rng = np.random.RandomState(5)
         pts = [(rng.uniform(0.5, 1.5, nx), pv), (rng.uniform(-1.5, -0.5, nx), pv)]
         tg, C = quiet(ocp.sample, chain[0], grid='gist')
@@ -54,6 +58,10 @@ def replay(rec):
             return {'results': [('C17.c:gist', 'mismatch', "sample(x, grid='gist') has %d entries, expected %d coefficient variables" % (len(loc), N + d))], 'error': None}
         xv = np.zeros(nx)
         for l, cval in zip(loc, rec['coef']): xv[l[0]] = fl(cval) / l[1]
+        if free:
+            tl = locate(quiet(ocp.value, ocp.T), opti, pts)[0]
+            if tl is None: return {'results': [('C17.c:freeT', 'mismatch', 'the free horizon is not a decision variable')], 'error': None}
+            xv[tl[0]] = fl(sc['T']) / tl[1]
         ev = lambda e: np.array(ca.Function('f', [vx, vp], [e])(xv, pv)).reshape(-1)
         res.append(('C17.c:greville',) + seq_compare(list(ev(tg)), rec['greville']))
         for i, s in enumerate(chain):
@@ -81,7 +89,8 @@ def replay(rec):
                 if np.isfinite(ub[i]): by.setdefault(cid, []).append(ub[i] - g[i])
                 if np.isfinite(lb[i]): by.setdefault(cid, []).append(g[i] - lb[i])
         # SplineMethod does not forward the call-site metadata of path constraints: they are the untagged rows
-        res.append(('C17.c:rows:path',) + bag_compare(by.get('path', []) + by.get(None, []), rec['path']))
+        # (a free horizon brings its own untagged row T >= 0, whose slack at the probe is T)
+        res.append(('C17.c:rows:path',) + bag_compare(by.get('path', []) + by.get(None, []), rec['path'] + ([sc['T']] if free else [])))
         res.append(('C17.c:rows:bnd0',) + bag_compare(by.get('bnd0', []), [rec['bnd0']], absval=True))
         res.append(('C17.c:rows:bndf',) + bag_compare(by.get('bndf', []), [rec['bndf']], absval=True))
         extra = [k for k in by if k not in ('path', 'bnd0', 'bndf', None)]
